@@ -461,6 +461,8 @@ static MinkShapes makeMinkShapes() {
     Manifold big = Manifold::Sphere(1, 48) - Manifold::Cube({0.5, 3, 0.5}).Translate({0.55, -1.5, 0.55});
     r.A.push_back(mkSolid("notchSphere48", big.Translate({0.05, -0.04, 0.03}), false));
   }
+  // a first operand made of two disjoint convex pieces: every piece is convex, the solid is not
+  r.A.push_back(mkSolid("twoCubes", (Manifold::Cube({1, 1, 1}) + Manifold::Cube({1, 1, 1}).Translate({3, 0, 0})).Translate({-0.45, -0.54, -0.47}), false));
   return r;
 }
 
@@ -860,10 +862,10 @@ int main(int argc, char** argv) {
     std::vector<const char*> MC = {"cases", "vertex_sums", "samples_in_operand", "sample_plus_vertex", "samples_in_sum", "diff_empty", "diff_vertices",
                                    "samples_in_diff", "erosion_probes"};
     const int n = asanSubset ? 7 : thorough ? 21 : 13, nY = asanSubset ? 4 : thorough ? 9 : 6;
-    R.phase("minkowski", 6 * 5 * 2 * 2, 1, [&](uint64_t idx, Ctx& c) {
+    R.phase("minkowski", 7 * 5 * 2 * 2, 1, [&](uint64_t idx, Ctx& c) {
       static MinkShapes MS = makeMinkShapes();
-      auto d = digits(idx, {6, 5, 2, 2});  // A, B, op, order
-      if (d[0] == 5 && (d[3] == 1 || MS.B[d[1]].convex == false)) return;  // the large operand is swept by the convex small ones only
+      auto d = digits(idx, {7, 5, 2, 2});  // A, B, op, order
+      if (d[0] >= 5 && (d[3] == 1 || MS.B[d[1]].convex == false)) return;  // the two extra first operands are swept by the convex small ones only
       const Solid& X = d[3] ? MS.B[d[1]] : MS.A[d[0]];
       const Solid& Y = d[3] ? MS.A[d[0]] : MS.B[d[1]];
       std::string key = X.name + (d[2] ? ".MinkowskiDifference(" : ".MinkowskiSum(") + Y.name + ")";
